@@ -111,9 +111,15 @@ def run(tier="quick"):
         for lp in outer:
             body_ids = {y["i"] for y in walk(lp.get("body") or {})}
             uses = []
+            COPY_INTO = ("memcpy", "memmove", "memset", "strncpy", "__builtin_memcpy", "__builtin___memcpy_chk", "__builtin___memmove_chk",
+                         "__builtin___memset_chk", "__builtin___strncpy_chk")
+            block_fills = []
             for c in X.calls_in(lp.get("body") or {}):
-                for a in c["ch"][1:]:
+                for j_, a in enumerate(c["ch"][1:]):
                     if is_A(a) or (X.strip(a) is not None and X.strip(a).get("k") == "ref" and X.strip(a).get("d") in cursors):
+                        if j_ == 0 and X.callee_name(c) in COPY_INTO:
+                            block_fills.append(c)       # the buffer is the destination of a counted copy: a fill, not a read
+                            continue
                         uses.append(c)
             writes = set()
             for x in walk(lp.get("body") or {}):
@@ -129,7 +135,7 @@ def run(tier="quick"):
                     cd = [y["d"] for y in walk(x["ch"][0]) if y.get("k") == "ref" and y.get("d") in cursors]
                     if not any(y.get("k") == "ref" and y.get("d") in cd and y["i"] in writes for y in walk(lp.get("body") or {})):
                         uses.append(x)
-            filled = any(y["i"] in writes and y.get("k") == "ref" and (y.get("d") in cursors or y.get("d") == A) for y in walk(lp.get("body") or {}))
+            filled = bool(block_fills) or any(y["i"] in writes and y.get("k") == "ref" and (y.get("d") in cursors or y.get("d") == A) for y in walk(lp.get("body") or {}))
             if not filled:
                 # the run is copied by a unit-local helper that is handed the buffer: the helper terminates what it wrote on
                 # every return (same obligation, stated inside the helper)
@@ -227,6 +233,14 @@ def run(tier="quick"):
             if x.get("k") == "call":
                 cn = X.callee_name(x)
                 if cn is None or (cn not in ALLOWED_CALLS and prog.fn(cn) is None and not cn.startswith("__")):
+                    # a libc copy whose destination is one of the function's own arrays changes no state outside the call
+                    a0_ = X.strip(x["ch"][1]) if x["ch"][1:] else None
+                    while a0_ is not None and a0_.get("k") in ("un", "index") and (a0_.get("op") == "&" or a0_.get("k") == "index"):
+                        a0_ = X.strip(a0_["ch"][0])
+                    if cn in ("memcpy", "memmove", "memset", "strncpy", "strcpy", "__builtin_memcpy", "__builtin___memcpy_chk", "__builtin___memmove_chk",
+                              "__builtin___memset_chk", "__builtin___strncpy_chk", "__builtin___strcpy_chk") and a0_ is not None and \
+                            a0_.get("k") == "ref" and a0_.get("rk") == "local" and (g.vardecls.get(a0_.get("d")) or {}).get("alen"):
+                        continue
                     bad_c.append((g, x))
     chk.ob("E1", f.name, "no-global-state", not bad_g, loc=bad_g[0][0].loc(bad_g[0][1]) if bad_g else f.loc(f.body),
            detail="%s reads or writes global/static `%s`: the result can depend on earlier calls" % (f.name, bad_g[0][1].get("n") if bad_g else ""),
